@@ -13,3 +13,16 @@ UNITS = {
     'STR_sliceCapacity': u('sliceCapacity', 2),
     'STR_treeSize': u('treeSize', 1, deps=['STR_sliceCount', 'STR_sliceCapacity'], while_fuel='(Z.to_nat v_numLeafNodes)', this_calls=['sliceCount']),
 }
+# 1-D packed interval R-tree (index/intervalrtree): the pruning test every node applies, the bounds a branch node takes from its
+# two children (the constructor's base-class initializer), and the sort key.  Meaning: C15/GenPreludeITV.v (a `double` is an
+# integer: only comparisons, min and max are applied to the interval ends, which are exact on all finite doubles; the
+# addition inside `compare` is used by the model only as "some order", see C15/ITVProofs.v).
+ITVH = 'src/index/intervalrtree/IntervalRTreeBranchNode.cpp'
+QI = 'geos::index::intervalrtree::'
+UNITS.update({
+    'ITV_intersects': dict(src=ITVH, qual=QI + 'IntervalRTreeNode::intersects', nparams=2, imports=['C15.GenPreludeITV'], gname='g_itv_intersects', imports_last=True),
+    'ITV_branchBounds': dict(src=ITVH, qual=QI + 'IntervalRTreeBranchNode::IntervalRTreeBranchNode', nparams=2, imports=['C15.GenPreludeITV'],
+                             gname='g_itv_branchBounds', imports_last=True, ctor_base_init=True),
+    'ITV_compare': dict(src=ITVH, qual=QI + 'IntervalRTreeNode::compare', nparams=2, imports=['C15.GenPreludeITV'], gname='g_itv_compare', imports_last=True),
+})
+
